@@ -50,7 +50,7 @@ def plan(tier, seed):
                 if weighted:
                     wkinds = ['f' * k, 'i' * k] + (['i' + 'f' * (k - 1), 'f' + 'i' * (k - 1)] if k > 1 else [])
                 for wk in wkinds:
-                    reps = ['m'] if tier == 'quick' else ['m', 'n', 'd']
+                    reps = (['m'] + (['d'] if kv in ('f', 'ff', 'ii', 'i') and wk in ('f', 'ff') else [])) if tier == 'quick' else ['m', 'n', 'd']
                     if tier == 'thorough' and k >= 2:
                         reps.append('mn')
                     if k >= 4:
